@@ -77,6 +77,10 @@ Definition plan_seq (xs : list Z) (l _a : Z) : list act * Z :=
   | None => ([AStop], l)
   end.
 
+(* pipe.StdErr: go func() { for err = range exx { if err != nil { slog.Error(..) } } }()  - no context, no output:
+   the goroutine reads until exx is closed; logging is the user-visible "call" *)
+Definition plan_sink (l a : Z) : list act * Z := ([], l).
+
 Definition no_eof (l : Z) : list act := [].
 Definition always (l : Z) : bool := true.
 
